@@ -163,7 +163,7 @@ theorem reconcileObject_permitted_adopts (cfg : Cfg) (ow : Owner) (prev : List P
   have hic := setControllerReference_isController _ _ _ _ _ hset
   simp only [reconcileObject, hseen, reconcileObjectWith, ha]
   simp only [↓reduceIte, hset, hic]
-  simp [World.apply, World.log, World.beforeWrite]
+  simp [World.apply, World.log, World.beforeWrite, World.tick, World.tick]
 
 /-- What justifies a write on a phase object, relative to the state PKO read in that step:
 the object did not exist, or the owner already controls it, or adoption is permitted. -/
@@ -191,7 +191,7 @@ theorem reconcilePhaseObject_writes (cfg : Cfg) (ow : Owner) (prev : List Prev) 
       cases hs : seen w (keyOf cfg ow p) with
       | none =>
         right
-        simp [reconcileObjectWith, World.apply, World.log, World.beforeWrite]
+        simp [reconcileObjectWith, World.apply, World.log, World.beforeWrite, World.tick, World.tick]
         simpa using hp
       | some cur =>
         simp only [reconcileObjectWith]
@@ -200,14 +200,14 @@ theorem reconcilePhaseObject_writes (cfg : Cfg) (ow : Owner) (prev : List Prev) 
           · -- already controller: skip, then patch
             have hsk : check cfg.st ow cfg.force cur prev p.cp = .skip := by simp [check, hc]
             right
-            simp [hsk, hc, World.apply, World.log, World.beforeWrite]
+            simp [hsk, hc, World.apply, World.log, World.beforeWrite, World.tick, World.tick]
             simpa using hp
           · have := check_garbage cfg.st ow cfg.force cur prev p.cp (by simpa using hc) hg
             left; simp [this]
         · by_cases hc : isController cfg.st (ow.ref true) cur = true
           · have hsk := (check_skips_iff cfg.st ow cfg.force cur prev p.cp hg).2 (Or.inl hc)
             right
-            simp [hsk, hc, World.apply, World.log, World.beforeWrite]
+            simp [hsk, hc, World.apply, World.log, World.beforeWrite, World.tick, World.tick]
             simpa using hp
           · have hc' : isController cfg.st (ow.ref true) cur = false := by simpa using hc
             by_cases hperm : Permitted cfg.st ow cfg.force cur prev p.cp
@@ -219,7 +219,7 @@ theorem reconcilePhaseObject_writes (cfg : Cfg) (ow : Owner) (prev : List Prev) 
               | some upd =>
                 have hic := setControllerReference_isController _ _ _ _ _ hset
                 right
-                simp [hic, World.apply, World.log, World.beforeWrite, hg, hperm]
+                simp [hic, World.apply, World.log, World.beforeWrite, World.tick, hg, hperm]
                 simpa using hp
             · have h := reconcileObject_refused_no_write cfg ow prev p w cur hs hc' (Or.inl hperm)
               left
